@@ -479,7 +479,7 @@ func (x *Exec) evalIdent(st *State, id *ast.Ident) Value {
 	case *types.Nil:
 		return x.zero(st, x.typeOf(id))
 	case *types.Const:
-		v, ok := x.constTerm(o.Val(), o.Type())
+		v, ok := x.namedConstTerm(o)
 		if !ok {
 			fail("constant %s", id.Name)
 		}
@@ -812,7 +812,7 @@ func (x *Exec) evalSelector(st *State, e *ast.SelectorExpr) Value {
 			obj := x.pkg.TypesInfo.ObjectOf(e.Sel)
 			switch o := obj.(type) {
 			case *types.Const:
-				v, _ := x.constTerm(o.Val(), o.Type())
+				v, _ := x.namedConstTerm(o)
 				return v
 			case *types.Var:
 				return x.eng.globalVar(x, st, o)
@@ -1061,17 +1061,11 @@ func (x *Exec) exactConst(e ast.Expr) (*big.Rat, bool) {
 		}
 	case *ast.Ident:
 		if c, ok := x.pkg.TypesInfo.ObjectOf(e).(*types.Const); ok {
-			if bt, ok := c.Type().Underlying().(*types.Basic); ok && bt.Info()&types.IsUntyped != 0 {
-				r, ok := new(big.Rat).SetString(c.Val().ExactString())
-				return r, ok
-			}
+			return x.exactNamedConst(c)
 		}
 	case *ast.SelectorExpr:
 		if c, ok := x.pkg.TypesInfo.ObjectOf(e.Sel).(*types.Const); ok {
-			if bt, ok := c.Type().Underlying().(*types.Basic); ok && bt.Info()&types.IsUntyped != 0 {
-				r, ok := new(big.Rat).SetString(c.Val().ExactString())
-				return r, ok
-			}
+			return x.exactNamedConst(c)
 		}
 	case *ast.CallExpr:
 		// float64(<const>)
@@ -1080,4 +1074,59 @@ func (x *Exec) exactConst(e ast.Expr) (*big.Rat, bool) {
 		}
 	}
 	return nil, false
+}
+
+// exactNamedConst: the exact decimal value of a named constant. Untyped constants are exact in go/types; a typed
+// float constant (const AlphaT float64 = 0.0001) is rounded there, so its declaration is evaluated instead.
+func (x *Exec) exactNamedConst(c *types.Const) (*big.Rat, bool) {
+	bt, ok := c.Type().Underlying().(*types.Basic)
+	if !ok {
+		return nil, false
+	}
+	if bt.Info()&types.IsUntyped != 0 {
+		return new(big.Rat).SetString(c.Val().ExactString())
+	}
+	if bt.Info()&types.IsFloat == 0 {
+		return nil, false
+	}
+	for _, p := range x.eng.pkgs {
+		if p.Types != c.Pkg() {
+			continue
+		}
+		for _, f := range p.Syntax {
+			for _, d := range f.Decls {
+				gd, ok := d.(*ast.GenDecl)
+				if !ok || gd.Tok != token.CONST {
+					continue
+				}
+				for _, sp := range gd.Specs {
+					vs := sp.(*ast.ValueSpec)
+					for i, nm := range vs.Names {
+						if p.TypesInfo.Defs[nm] == c && i < len(vs.Values) {
+							y := &Exec{eng: x.eng, pkg: p}
+							return y.exactConst(vs.Values[i])
+						}
+					}
+				}
+			}
+		}
+	}
+	return nil, false
+}
+
+// namedConstTerm: value of a named constant; typed float constants with their exact declared value (R-mode reads
+// decimal literals exactly everywhere, see exactConst).
+func (x *Exec) namedConstTerm(o *types.Const) (Value, bool) {
+	if x.mode != "U" && isFloat(o.Type()) {
+		if x.pkg == nil {
+			for _, p := range x.eng.pkgs {
+				x.pkg = p
+				break
+			}
+		}
+		if r, ok := x.exactNamedConst(o); ok && r != nil {
+			return sc(x.realConst(r)), true
+		}
+	}
+	return x.constTerm(o.Val(), o.Type())
 }
